@@ -318,6 +318,7 @@ def lagging_strategy(draw, tier):
         'src_work': [draw(st.sampled_from([3, 5]))], 'f_work': [draw(st.sampled_from([0, 20, 50]))],
         'stall': {'at': draw(st.integers(0, 6)), 'ms': draw(st.sampled_from([0, 1500, 2500]))},
         'e_work': [draw(st.sampled_from([5, 40]))], 'sibling': draw(st.booleans()),
+        'same_pub': draw(st.sampled_from([False, False, True])),      # the ephemeral attachment goes to the *same* publisher (another topic of it) instead of to E
         'net': {**draw(scen.net_strategy(classes=('fast', 'lan'), max_drops=0)), 'sub_hwm': 80},
         'starts': draw(st.lists(st.sampled_from([0, 0, 40, 300]), min_size=4, max_size=4)), 'ipc': draw(st.booleans()),
     }
@@ -330,10 +331,12 @@ def run_lagging(case):
     fbeh = {'kind': 'sink', 'work': case['f_work']}
     if case['stall']['ms']:
         fbeh['stall'] = dict(case['stall'])
-    esrc = 'E' + case['mark'] + ';aux>side'
-    nodes = [{'id': 'S', 'beh': {'kind': 'src', 'n': n, 'work': case['src_work']}, 'required': syncs, 'start': st_[0]},
+    same = bool(case.get('same_pub'))
+    esrc = ('S' if same else 'E') + case['mark'] + ';aux>side'
+    ssrc = 'S;main' if same else 'S'
+    nodes = [{'id': 'S', 'beh': {'kind': 'src', 'n': n, 'work': case['src_work'], **({'topics': ['main', 'aux']} if same else {})}, 'required': syncs, 'start': st_[0]},
              {'id': 'E', 'beh': {'kind': 'src', 'n': 10 * n, 'work': case['e_work'], 'topics': ['aux']}, 'start': st_[1]},
-             {'id': 'F', 'sources': [esrc, 'S'] if case['order'] == 'eph_first' else ['S', esrc], 'nout': 0, 'beh': fbeh, 'start': st_[2]}]
+             {'id': 'F', 'sources': [esrc, ssrc] if case['order'] == 'eph_first' else [ssrc, esrc], 'nout': 0, 'beh': fbeh, 'start': st_[2]}]
     if case['sibling']:
         nodes.append({'id': 'G', 'sources': ['S'], 'nout': 0, 'beh': {'kind': 'sink', 'work': [0]}, 'start': st_[3]})
     p = harness.Pipeline(nodes, net=case['net'], seed=9, ipc=case.get('ipc', False))
@@ -343,18 +346,23 @@ def run_lagging(case):
         def done():
             return all((c := p.process_calls(k)) and any(pv and pv.get('origin') == 'S' and pv.get('seq') == n - 1 for pv in c[-1]['in'].values()) for k in syncs)
         p.run(30_000 + n * (case['f_work'][0] + 60) + case['stall']['ms'], stop=done)
-        seqs = {k: [pv['seq'] for r in p.process_calls(k) for t, pv in r['in'].items() if pv and pv.get('origin') == 'S'] for k in syncs}
+        seqs = {k: [pv['seq'] for r in p.process_calls(k) for t, pv in r['in'].items() if pv and pv.get('origin') == 'S' and t == 'main'] for k in syncs}
         side = sum(1 for r in p.process_calls('F') if r['in'].get('side'))
         drops = sum(1 for e in p.world.log if e[0] == 'hwm_drop' and e[3] == 'F' and e[2] == 'S')
         raised = [(k, e) for k, e in p.ends.items() if e['how'] == 'raised']
     finally:
         p.finish()
-    classes = [f'sources {case["order"]}', f'mark {case["mark"]}', 'with a fast sibling' if case['sibling'] else 'sole synchronized consumer',
+    classes = [f'sources {case["order"]}', f'mark {case["mark"]}'] + (['both attachments to the same publisher'] if case.get('same_pub') else []) + [ 'with a fast sibling' if case['sibling'] else 'sole synchronized consumer',
                'consumer stalls' if case['stall']['ms'] else 'consumer merely slow']
     if raised:
         return bad(f'filter {raised[0][0][0]} ended with {raised[0][1]["exc"]}', f'filter-raised:{raised[0][1].get("type")}', classes)
     for k in syncs:
-        if seqs[k] != list(range(n)):
+        want = list(range(n))
+        if same and k == 'F' and seqs[k]:
+            # F's id is in outputs_required and its '?' connection already counts as "F is connected": the publisher may start before F's synchronized
+            # connection is registered, so F may join the stream late - but from then on it must not lose anything
+            want = list(range(seqs[k][0], n))
+        if seqs[k] != want:
             missing = sorted(set(range(n)) - set(seqs[k]))
             return bad(f'synchronized consumer {k} (sources {nodes[2]["sources"] if k == "F" else ["S"]}) received {len(seqs[k])} of {n} frames, missing {missing[:6]}...: '
                        f'its publisher did not wait for it ({drops} publishes dropped at its full queue)', f'sync-consumer-loses-frames:{case["order"]}', classes)
